@@ -627,9 +627,11 @@ impl Default for GemmExecutor<u8, i8, i32> {
 /// This is chosen such that a `depth_block_size * nr` panel of B fits in the L1
 /// cache, and can be reused in the loop over row tiles within each row block.
 /// On AVX2 with f32 GEMM for example, NR=16 so `256 * 16 * 4 = 16KB`.
+///
+/// The block size is always non-zero, even if `a_cols` is zero.
 fn depth_block_size<RhsT>(a_cols: usize, min_size: Option<usize>) -> usize {
     let max = 1024 / size_of::<RhsT>();
-    max.min(a_cols).max(min_size.unwrap_or(0))
+    max.min(a_cols).max(min_size.unwrap_or(0)).max(1)
 }
 
 /// Return the block size for the N / column dimension of a GEMM operation.
